@@ -34,7 +34,7 @@ type Msg struct {
 type Case struct {
 	Tier  string `json:"tier"` // inproc | subproc | nav
 	Msgs  []Msg  `json:"msgs"`
-	Frags []int  `json:"frags"` // fragment sizes of the client->server byte stream, used cyclically; empty = one write per frame
+	Frags []int  `json:"frags"`         // fragment sizes of the client->server byte stream, used cyclically; empty = one write per frame
 	Hdr   int    `json:"hdr,omitempty"` // header style of the client's frames (0 plain, 1/2 with Content-Type after/before Content-Length)
 }
 
@@ -99,7 +99,9 @@ func (m Msg) method() string {
 	return "workspace/somethingUnknown"
 }
 
-func (m Msg) isNotification() bool { return m.Kind == "open" || m.Kind == "change" || m.Kind == "close" }
+func (m Msg) isNotification() bool {
+	return m.Kind == "open" || m.Kind == "change" || m.Kind == "close"
+}
 
 func (m Msg) isUpdate() bool { return m.Kind == "open" || m.Kind == "change" }
 
